@@ -20,14 +20,19 @@ class Quiescent(Exception):
 # result: dict(events=[(t, kind, payload)], app=[...records...], handler_done=t|None, closed_at=t|None, leftovers=[...])
 
 
+SOCK = {"family": _socket.AF_INET, "peer": ("10.0.0.1", 4321), "name": ("10.0.0.2", 443)}     # what the servers' socket reports
+
+
 class FakeSock:
-    family = _socket.AF_INET
+    @property
+    def family(self):
+        return SOCK["family"]
 
     def getpeername(self):
-        return ("10.0.0.1", 4321)
+        return SOCK["peer"]
 
     def getsockname(self):
-        return ("10.0.0.2", 443)
+        return SOCK["name"]
 
 
 class FakeSSLObject:
